@@ -520,6 +520,42 @@ func c13Run(t *rapid.T) {
 				plush.CacheSet(progs[i].text, tm)
 			}
 			count("c13_op_cacheset", 1)
+		case 14:
+			// page then layout with ONE context (buffalo's flow): the layout pulls
+			// in the contentFor blocks the page registered
+			hist = append(hist, fmt.Sprintf("Exec(prog %d) then Exec(layout) with the same context, data %d", i, j))
+			run := func() (string, error, *Runtime) {
+				rt := newRT(i, j)
+				ctx := plush.NewContextWith(rt.contextData())
+				tm, err := plush.NewTemplate(progs[i].text)
+				if err != nil {
+					return "", err, rt
+				}
+				out, err := safeExec(tm, ctx)
+				if err != nil {
+					return "", err, rt
+				}
+				lt, err := plush.NewTemplate(layoutText)
+				if err != nil {
+					return "", err, rt
+				}
+				lout, err := safeExec(lt, ctx)
+				return out + "¦" + lout, err, rt
+			}
+			// no precomputed reference for this shape: run it twice, under the
+			// canonical order first, then under the history's current order
+			savedP := simrt.MapOrder()
+			simrt.SetMapOrder(simrt.Canonical, 0)
+			o1, e1, r1 := run()
+			simrt.SetMapOrder(savedP, uint64(op)+1)
+			o2, e2, r2 := run()
+			a, b := result(o1, e1, r1), result(o2, e2, r2)
+			execs++
+			count("c13_executions", 2)
+			count("c13_op_page_layout", 1)
+			if a != b {
+				violate(t, "C13", "same-template-same-data-same-result", "c13:result-differs:page+layout", det(fmt.Sprintf("page+layout of program %d with data variant %d gave\n  %s\nand then\n  %s", i, j, a, b)))
+			}
 		default:
 			// an execution that fails half-way (injected fault) leaves no trace
 			rt := newRT(i, j)
